@@ -22,6 +22,8 @@ from ..lib import driver, env, gen, ser
 
 ID = "C06"
 LEAN_MODULES = ["TakVerif.Props.C06"]
+# cross-operation sessions (lib/session.py): which operations this property judges
+SESSION = {"kinds": {"encode"}, "sizes": (3, 4, 5, 6)}
 RULE = (
     "positions of sizes 3..6: random legal play (6 biased policies; standard reserves, custom reserves inside the "
     "vocabulary 0..49/0..1, and custom reserves outside it), constructed boards (tall mixed stacks, tops-only and not, "
